@@ -422,3 +422,4 @@ def cases(tier, seed):
 BOUNDS = dict(mutation="57-operation alphabet on a pool of 19 operators and 13 caller-owned arrays; all single operations; every 9th ordered pair (rotated by "
               "VERIF_SEED; every 2nd in thorough) and a sample of triples in thorough", flatten="26 operator trees (every kind); leaf substitution for every float "
               "leaf", registry="6 instantiation histories x 9 operators in a registry reset to the fresh-interpreter state", values="all payloads symbolic")
+BOUNDS["added"] = "every option object alive before a call (shared default arguments included) is unchanged by it; operators that were used before they are flattened; an operator rebuilt from another operator's parameters represents that operator"
